@@ -5,6 +5,7 @@ import FlVerif.Lemmas.Reject
 import FlVerif.Op.FunctionTerm
 import FlVerif.Lemmas.CodeFunction
 import FlVerif.Lemmas.CodeFunctionParse
+import FlVerif.Lemmas.CodeFunEval
 
 /-! # C17 — Function formulas follow the documented precedence and associativity
 
@@ -75,6 +76,45 @@ theorem code_parsePostfix (tbl : Table) (formula : String) :
     | .error e => Gen.Code.Function_parse.run tbl formula {} = .error e.toPy
     | .ok r => ∃ σ, Gen.Code.Function_parse.run tbl formula {} = .ok σ ∧ σ.ret = some r.toNode :=
   CodeFn.code_parsePostfix tbl formula
+
+/-- **Tie A (code → model).**  `Gen.Code.Node_evaluate` is regenerated from the source of `Function.Node.evaluate`
+    on every run (the recursion over the tree with a bound on its depth, which is never exhausted; values are any
+    type `V`; `sem.ap0/ap1/ap2` are the meanings of `element.method(*args)`, `const` the scalar of a float, `lv` the
+    map of variables or `None`).  For every tree `e` that `Function.parse` can build – the arity of every element is
+    the number of its operands (`Op.Arities`; the table has no element of arity 3 or more, `table_wellFormed`) and a
+    leaf is a token, not the empty string – the function called on the node tree `e.toNode` raises `ValueError`
+    where `Op.evalTree` has no value (a variable without substitution) and otherwise returns the model's value. -/
+theorem code_nodeEvaluate {V : Type} [Inhabited V] (sem : Sem V) (const : X Rat → V) (lv : Option (List (String × V)))
+    (e : Expr) (ha : Arities e) (hl : e.LeavesNonempty) :
+    match evalTree (nodeSem sem const lv) e with
+    | none => Gen.Code.Node_evaluate.run sem const e.toNode lv {} = .error .value
+    | some v => ∃ σ, Gen.Code.Node_evaluate.run sem const e.toNode lv {} = .ok σ ∧ σ.ret = some v :=
+  CodeFunEval.code_nodeEvaluate sem const lv e ha hl
+
+/-- **Tie A (code → model).**  `Gen.Code.Function_evaluate` (regenerated from `Function.evaluate`): `RuntimeError` when
+    no tree is loaded, else `Node.evaluate` of the root (`Op.evaluateOf`). -/
+theorem code_functionEvaluate {V : Type} [Inhabited V] (sem : Sem V) (const : X Rat → V) (lv : Option (List (String × V)))
+    (root : Option Expr) (hr : ∀ e, root = some e → Arities e ∧ e.LeavesNonempty) :
+    match evaluateOf (nodeSem sem const lv) root with
+    | .error k => Gen.Code.Function_evaluate.run sem const (root.map Expr.toNode) lv {} = .error k.toPy
+    | .ok v => ∃ σ, Gen.Code.Function_evaluate.run sem const (root.map Expr.toNode) lv {} = .ok σ ∧ σ.ret = some v :=
+  CodeFunEval.code_functionEvaluate sem const lv root hr
+
+/-- **Tie A (code → model).**  `Gen.Code.Function_membership` is regenerated from the source of `Function.membership`
+    (`fvars` = the term's own variables, `engine` = the name / value pairs of the engine's variables or `None`; a
+    dictionary is the list of its assignments, a look-up takes the last one).  It raises the exception class the model
+    `Op.membershipOf` predicts – `ValueError` for a term variable `x`, an engine variable `x`, a term variable with the
+    name of an engine variable (`Op.membershipEnv`), `RuntimeError` for a term that is not loaded, `ValueError` for a
+    variable without substitution – and otherwise returns the model's value: the tree evaluated with the engine's
+    variables in order, then `x`, then the term's variables. -/
+theorem code_functionMembership {V : Type} [Inhabited V] (sem : Sem V) (const : X Rat → V) (root : Option Expr)
+    (hr : ∀ e, root = some e → Arities e ∧ e.LeavesNonempty) (fvars : List (String × V))
+    (engine : Option (List (String × V))) (x : V) :
+    match membershipOf sem const root fvars (engine.getD []) x with
+    | .error k => Gen.Code.Function_membership.run sem const (root.map Expr.toNode) fvars engine x {} = .error k.toPy
+    | .ok v => ∃ σ, Gen.Code.Function_membership.run sem const (root.map Expr.toNode) fvars engine x {} = .ok σ ∧
+        σ.ret = some v :=
+  CodeFunEval.code_functionMembership sem const root hr fvars engine x
 
 /-! ## infix → postfix: the shunting-yard loop is correct for every writing of every tree -/
 
